@@ -28,4 +28,5 @@ Definition wf_case (c : case) : bool :=
   | MemoFrom s _ => utf8_valid s
   | AmountParse s _ => utf8_valid s && negb (in_set s 38)
   | AmountRender z _ => (0 <=? z) && (z <=? MAX_MONEY)
+  | AddrFlags _ _ _ => true
   end.
